@@ -101,6 +101,22 @@ def check_one(ctx, M, kind, adt, ext_trait, tr, meth):
         # into_future of the blanket impl is folded to identity by the term builder when resolved; accept both
         ok = ok or (a0 == ("param", 1) and a1 == ("param", 2))
     ctx.check(ok, "C19.EXT", ext.def_, "wait_until(self, deadline) = WaitUntil::new(self, deadline.into_future())", site=ext.span)
+    # nothing else builds a WaitUntil: an inherent `wait_until` on the wrapper itself (which would shadow the extension
+    # method and, say, merge stacked deadlines into one) or any other constructor changes what `x.wait_until(d)` means
+    others = []
+    for x in M.F.bodies:
+        if x.kind in ("Const", "AnonConst") or x.def_ in (ext.def_, new.def_) or "::test" in x.def_:
+            continue
+        for blk in sorted(x.reachable):
+            if x.is_cleanup(blk):
+                continue
+            t = x.term(blk)
+            if t["k"] == "call" and "indirect" not in t["func"] and (t["func"].get("resolved_c") or t["func"].get("cpath")) == new.j["cdef"]:
+                others.append("%s calls WaitUntil::new" % x.def_)
+            for st in x.stmts(blk):
+                if st["k"] == "assign" and st["rv"]["k"] == "agg" and st["rv"].get("cpath") == adt:
+                    others.append("%s builds a WaitUntil" % x.def_)
+    ctx.check(not others, "C19.EXT", new.def_, "WaitUntil is built only by `new`, which is called only by the extension method", site=new.span, path=others[:4])
 
     # ---------------------------------------------------------------- poll body
     bi = M.info(poll)
